@@ -479,6 +479,9 @@ func (b *TB) Bin(op Op, x, y *Term) *Term {
 		if x == y {
 			return x
 		}
+		if r := b.orPieces(x, y); r != nil {
+			return r
+		}
 	case OpBXor:
 		if x.IsConst() {
 			x, y = y, x
@@ -496,6 +499,13 @@ func (b *TB) Bin(op Op, x, y *Term) *Term {
 			}
 			if y.C >= uint64(w) && op != OpAshr {
 				return b.Const(w, 0)
+			}
+			if op == OpShl && x.Op == OpZext && uint64(x.P1) >= y.C {
+				// shl(zext(e, v), c) = concat(zext(e-c, v), 0_c)
+				return b.Concat(b.Zext(x.P1-int(y.C), x.Args[0]), b.Const(int(y.C), 0))
+			}
+			if op == OpShl && x.Op == OpConcat && x.Args[0].IsConst() && x.Args[0].C == 0 && uint64(x.Args[0].W) >= y.C {
+				return b.Concat(b.Concat(b.Const(x.Args[0].W-int(y.C), 0), x.Args[1]), b.Const(int(y.C), 0))
 			}
 		}
 		if x.IsConst() && x.C == 0 {
@@ -835,4 +845,75 @@ func (t *Term) render(sb *strings.Builder, budget *int) {
 		a.render(sb, budget)
 	}
 	sb.WriteString(")")
+}
+
+// ---- OR of bit-disjoint pieces (byte reassembly such as binary.BigEndian.Uint32) ----
+
+type piece struct {
+	off, w int
+	t      *Term
+}
+
+func (b *TB) pieces(t *Term, off int, out *[]piece) {
+	switch {
+	case t.IsConst() && t.C == 0:
+	case t.Op == OpZext:
+		b.pieces(t.Args[0], off, out)
+	case t.Op == OpConcat:
+		b.pieces(t.Args[1], off, out)
+		b.pieces(t.Args[0], off+t.Args[1].W, out)
+	default:
+		*out = append(*out, piece{off, t.W, t})
+	}
+}
+
+// orPieces returns x|y as a concatenation when the non-zero regions of x and y are disjoint, else nil.
+func (b *TB) orPieces(x, y *Term) *Term {
+	if x.Op != OpZext && x.Op != OpConcat && y.Op != OpZext && y.Op != OpConcat {
+		return nil
+	}
+	var ps []piece
+	b.pieces(x, 0, &ps)
+	nx := len(ps)
+	b.pieces(y, 0, &ps)
+	if nx == 1 && ps[0].w == x.W && len(ps)-nx == 1 && ps[nx].w == y.W {
+		return nil
+	}
+	// sort by offset (few pieces)
+	for i := 1; i < len(ps); i++ {
+		for j := i; j > 0 && ps[j].off < ps[j-1].off; j-- {
+			ps[j], ps[j-1] = ps[j-1], ps[j]
+		}
+	}
+	for i := 1; i < len(ps); i++ {
+		if ps[i-1].off+ps[i-1].w > ps[i].off {
+			return nil
+		}
+	}
+	w := x.W
+	var res *Term
+	pos := 0
+	for _, p := range ps {
+		if p.off > pos {
+			z := b.Const(p.off-pos, 0)
+			if res == nil {
+				res = z
+			} else {
+				res = b.Concat(z, res)
+			}
+		}
+		if res == nil {
+			res = p.t
+		} else {
+			res = b.Concat(p.t, res)
+		}
+		pos = p.off + p.w
+	}
+	if pos < w {
+		if res == nil {
+			return b.Const(w, 0)
+		}
+		res = b.Zext(w-pos, res)
+	}
+	return res
 }
